@@ -359,9 +359,11 @@ def main():
         add(s_, ("symmetry",))
     for s_ in ("hllsy", "hlle"):
         add(s_, ("symmetry",), cov=True, fork_minmax=True)
-    for s_ in ("hllc", "hll_ball", "ducowicz", "van_leer", "exact"):
+    for s_ in ("hllc", "hll_ball", "ducowicz", "exact"):
         # bug-hunting slice (4 symbolic reals): decided paths are claims on
-        # the slice only, undecided ones are listed
+        # the slice only, undecided ones are listed.  van_leer is left out:
+        # its Newton iterate nests square roots and z3 does not return from
+        # the first feasibility query (the unit is killed by the hard limit)
         add(s_, ("symmetry",), cov=True, fork_minmax=True, slice_=True,
             nonzero_div=True,
             timeout_ms=10000 if t == "quick" else 60000,
@@ -382,8 +384,7 @@ def main():
                           "hllc", "hll_ball", "ducowicz", "van_leer",
                           "exact"],
                       symmetry_on_slice=dict(
-                          solvers=["hllc", "hll_ball", "ducowicz",
-                                   "van_leer", "exact"],
+                          solvers=["hllc", "hll_ball", "ducowicz", "exact"],
                           slice="gamma = 7/5, right state rho = 1, p = 5/7; "
                           "left state and both velocities symbolic",
                           note="time-boxed; divisors assumed non-zero (no "
